@@ -277,6 +277,17 @@ class Unit:
         self.rewrites.append('L1 expanded %d invocations of the local macros %s by parameter substitution' % (n_exp, sorted(macros)))
         self.macros = macros
 
+    # ---- L8
+    def unit_closure_params(self):
+        """`|()| E` (the variant constructor closure the generator emits for unit variants with a callback) -> `|_vlex_u: ()| E`
+        (Verus: "only variables are supported here, not general patterns")"""
+        t = self.toks; n = 0; i = 0
+        while i < len(t) - 3:
+            if t[i] == '|' and t[i + 1] == '(' and t[i + 2] == ')' and t[i + 3] == '|':
+                t[i:i + 4] = ['|', '_vlex_u', ':', '(', ')', '|']; n += 1
+            i += 1
+        if n: self.rewrites.append('L8 %d closures `|()| E` written `|_vlex_u: ()| E`' % n)
+
     # ---- L2
     def labelled_blocks(self):
         t = self.toks; i = 0; n = 0
@@ -840,6 +851,7 @@ def transform(name, raw, lex_req, lex_ens, bytes_view=False, canary=None):
     u.analyse()
     u.expand_macros()
     u.labelled_blocks()
+    u.unit_closure_params()
     u.make_bytes_view()
     u.hoist_enums()
     u.rename_arm_items()
